@@ -1,7 +1,7 @@
 """C03 - exporters are driven one call at a time and within the configured batch bounds."""
 from ..ir import AnalysisBroken, strip_targs, qmatch
 from ..graph import Graph
-from ..expr import access_path, path_str, held_locks, reaching_defs, defs_in_node, leaves, origins
+from ..expr import access_path, path_str, held_locks, reaching_defs, defs_in_node, leaves, origins, norm_cond
 from ..callgraph import CallGraph
 from .common import (Roles, EXPORTER_EXPORT, same_class_inline, member_funcs, nonzero_polarity, comparison,
                      strip_casts, expr_equal, short, FLIP, cond_text, atomic_op)
@@ -162,15 +162,7 @@ def rule_r2_single_worker(ck, prog, cg, roles, per_cycle_ok=False):
         starts = g.calls('std::thread::thread')
         joins = g.calls('std::thread::join')
 
-        def infeasible(p, q, lab):
-            # the false edge of `x && x->joinable()` style tests is the "no thread" case
-            if lab and isinstance(lab[0], int) and lab[2] is False:
-                sub = [lab[1].nodes[i] for i in lab[1].subtree(lab[0])]
-                if any(s['k'] == 'call' and qmatch(s.get('c', ''), 'std::thread::joinable') for s in sub):
-                    return True
-                if any(s['k'] == 'call' and qmatch(s.get('c', ''), 'operator bool') for s in sub):
-                    return True
-            return False
+        from .common import no_thread_edge as infeasible
         ok = True
         for s in starts:
             r = g.reachable_from(s, avoid=joins, avoid_edges=infeasible)
